@@ -27,11 +27,11 @@ func witnessDesigns() []DCase {
 		d.Types = []*dg.UserType{{Name: "Alias", Base: dg.Prim("String")}}
 		add("alias-in-param", d)
 	}
-	// alias of Int in the query string
+	// alias of Int in a cookie (an alias of Int in the query string alone compiles)
 	{
-		d := svc1("w_alias_query", &dg.Method{Name: "m",
-			Payload: pa(dg.A(dg.Obj(dg.F("q", dg.Ref("AliasI")), dg.F("p", dg.Ref("AliasI"))))),
-			HTTP:    &dg.HTTPMap{Routes: []dg.Route{{Verb: "GET", Path: "/m"}}, Params: []dg.MapEntry{{Attr: "q"}}, Cookies: []dg.MapEntry{{Attr: "p"}}}})
+		d := svc1("w_alias_cookie", &dg.Method{Name: "m",
+			Payload: pa(dg.A(dg.Obj(dg.F("ck", dg.Ref("AliasI"))))),
+			HTTP:    &dg.HTTPMap{Routes: []dg.Route{{Verb: "GET", Path: "/m"}}, Cookies: []dg.MapEntry{{Attr: "ck"}}}})
 		d.Types = []*dg.UserType{{Name: "AliasI", Base: dg.Prim("Int")}}
 		add("alias-in-param", d)
 	}
@@ -49,20 +49,35 @@ func witnessDesigns() []DCase {
 	add("nested-inline-object", svc1("w_array_inline", &dg.Method{Name: "m",
 		Result: pa(dg.A(dg.Obj(dg.F("xs", dg.ArrayOf(dg.A(dg.Obj(dg.F("x", dg.Prim("Int"))))))))),
 		HTTP:   &dg.HTTPMap{Routes: []dg.Route{{Verb: "GET", Path: "/m"}}}}))
-	// non-string primitive payload mapped to a header
-	add("non-string-primitive-header", svc1("w_int_payload_header", &dg.Method{Name: "m",
+	// primitive (or array) payload mapped to a header or a cookie: the client encoder never uses it
+	// (goa's own golden file payload_encode_functions.go PayloadHeaderPrimitiveStringValidateEncodeCode shows the same code)
+	add("primitive-payload-in-header", svc1("w_int_payload_header", &dg.Method{Name: "m",
 		Payload: pa(dg.A(dg.Prim("Int"))),
 		HTTP:    &dg.HTTPMap{Routes: []dg.Route{{Verb: "GET", Path: "/m"}}, Headers: []dg.MapEntry{{Attr: "ph", Wire: "X-Ph"}}}}))
-	// Enum(1,2,3) on UInt32 array elements
+	add("primitive-payload-in-header", svc1("w_string_payload_header", &dg.Method{Name: "m",
+		Payload: pa(dg.A(dg.Prim("String"))),
+		HTTP:    &dg.HTTPMap{Routes: []dg.Route{{Verb: "POST", Path: "/m"}}, Headers: []dg.MapEntry{{Attr: "ph"}}}}))
+	add("primitive-payload-in-header", svc1("w_string_payload_cookie", &dg.Method{Name: "m",
+		Payload: pa(dg.A(dg.Prim("String"))),
+		HTTP:    &dg.HTTPMap{Routes: []dg.Route{{Verb: "GET", Path: "/m"}}, Cookies: []dg.MapEntry{{Attr: "pc", Wire: "ck"}}}}))
+	add("primitive-payload-in-header", svc1("w_array_payload_header", &dg.Method{Name: "m",
+		Payload: pa(dg.A(dg.ArrayOf(dg.A(dg.Prim("String"))))),
+		HTTP:    &dg.HTTPMap{Routes: []dg.Route{{Verb: "GET", Path: "/m"}}, Headers: []dg.MapEntry{{Attr: "ph", Wire: "X-V"}}}}))
+	// Enum(1,2,3) (Go int literals) on array elements of a sized or unsigned integer type
 	{
 		e := dg.A(dg.Prim("UInt32"))
 		e.V = &dg.Validation{Enum: []any{1, 2, 3}}
-		add("uint-enum-array-elements", svc1("w_uint_enum", &dg.Method{Name: "m",
+		add("sized-int-enum-array-elements", svc1("w_uint_enum", &dg.Method{Name: "m",
 			Payload: pa(dg.A(dg.Obj(dg.F("xs", dg.ArrayOf(e))))),
+			HTTP:    &dg.HTTPMap{Routes: []dg.Route{{Verb: "POST", Path: "/m"}}}}))
+		e32 := dg.A(dg.Prim("Int32"))
+		e32.V = &dg.Validation{Enum: []any{1, 2, 3}}
+		add("sized-int-enum-array-elements", svc1("w_int32_enum", &dg.Method{Name: "m",
+			Payload: pa(dg.A(dg.Obj(dg.F("xs", dg.ArrayOf(e32))))),
 			HTTP:    &dg.HTTPMap{Routes: []dg.Route{{Verb: "POST", Path: "/m"}}}}))
 		e64 := dg.A(dg.Prim("UInt64"))
 		e64.V = &dg.Validation{Enum: []any{1, 2, 3}}
-		add("uint-enum-array-elements", svc1("w_uint64_enum", &dg.Method{Name: "m",
+		add("sized-int-enum-array-elements", svc1("w_uint64_enum", &dg.Method{Name: "m",
 			Result: pa(dg.A(dg.Obj(dg.F("xs", dg.ArrayOf(e64))))),
 			HTTP:   &dg.HTTPMap{Routes: []dg.Route{{Verb: "GET", Path: "/m"}}}}))
 	}
@@ -96,5 +111,84 @@ func witnessDesigns() []DCase {
 	add("map-key-not-primitive-cli-example", svc1("w_map_array_key", &dg.Method{Name: "m",
 		Payload: pa(dg.A(dg.Obj(dg.F("mm", dg.MapOf(dg.A(dg.ArrayOf(dg.A(dg.Prim("String")))), dg.A(dg.Prim("String"))))))),
 		HTTP:    &dg.HTTPMap{Routes: []dg.Route{{Verb: "POST", Path: "/m"}}}}))
+	post := func() *dg.HTTPMap { return &dg.HTTPMap{Routes: rt("POST", "/m")} }
+	// a map parameter with MaxLength below 3: the example drawn for the CLI usage can be the empty map
+	{
+		f := dg.F("mm", dg.MapOf(dg.A(dg.Prim("String")), dg.A(dg.Prim("Int")))).With(dg.Validation{MaxLen: dg.Ip(1)})
+		d := svc1("api0", &dg.Method{Name: "m", Payload: pa(dg.A(dg.Obj(f))), HTTP: &dg.HTTPMap{Routes: rt("POST", "/m"), Params: []dg.MapEntry{{Attr: "mm"}}}})
+		add("map-param-maxlength-cli-example", d)
+	}
+	// map keyed by Boolean / Float64: the OpenAPI example cannot be marshalled
+	add("map-bool-or-float-key", svc1("w_map_bool_key", &dg.Method{Name: "m", Payload: pa(dg.A(dg.Obj(dg.F("mm", dg.MapOf(dg.A(dg.Prim("Boolean")), dg.A(dg.Prim("String"))))))), HTTP: post()}))
+	add("map-bool-or-float-key", svc1("w_map_float_key", &dg.Method{Name: "m", Result: pa(dg.A(dg.Obj(dg.F("mm", dg.MapOf(dg.A(dg.Prim("Float64")), dg.A(dg.Prim("Int"))))))), HTTP: post()}))
+	// string default that needs escaping, on a parameter (CLI flag description)
+	add("default-string-needs-escaping", svc1("w_default_quote", &dg.Method{Name: "m", Payload: pa(dg.A(dg.Obj(dg.F("s", dg.Prim("String")).Def("d\"q")))),
+		HTTP: &dg.HTTPMap{Routes: rt("GET", "/m"), Params: []dg.MapEntry{{Attr: "s"}}}}))
+	add("default-string-needs-escaping", svc1("w_default_backslash", &dg.Method{Name: "m", Payload: pa(dg.A(dg.Obj(dg.F("s", dg.Prim("String")).Def("d\\q")))),
+		HTTP: &dg.HTTPMap{Routes: rt("GET", "/m"), Headers: []dg.MapEntry{{Attr: "s", Wire: "X-S"}}}}))
+	// Bytes default, collection default given as []any
+	add("bytes-default", svc1("w_bytes_default", &dg.Method{Name: "m", Payload: pa(dg.A(dg.Obj(dg.F("s", dg.Prim("Bytes")).Def("raw")))), HTTP: post()}))
+	add("collection-default", svc1("w_array_default", &dg.Method{Name: "m", Payload: pa(dg.A(dg.Obj(dg.F("s", dg.ArrayOf(dg.A(dg.Prim("String")))).Def([]any{"x", "y"})))), HTTP: post()}))
+	// alias of an alias in a request body
+	{
+		d := svc1("w_alias_of_alias", &dg.Method{Name: "m", Payload: pa(dg.A(dg.Obj(dg.F("aa", dg.Ref("AA"))))), HTTP: post()})
+		d.Types = []*dg.UserType{{Name: "AStr", Base: dg.Prim("String"), V: &dg.Validation{MinLen: dg.Ip(1)}}, {Name: "AA", Base: dg.Ref("AStr")}}
+		add("alias-of-alias", d)
+	}
+	// result type that reaches itself
+	{
+		d := svc1("w_recursive_result_type", &dg.Method{Name: "tree", Result: pa(dg.A(dg.Ref("RNode"))), HTTP: &dg.HTTPMap{Routes: rt("GET", "/tree")}})
+		d.Types = []*dg.UserType{{Name: "RNode", Result: true, Base: dg.Obj(dg.Req("v", dg.Prim("String")), dg.F("next", dg.Ref("RNode"))),
+			Views: []dg.View{{Name: "default", Attrs: []dg.ViewField{{Name: "v"}, {Name: "next", View: "tiny"}}}, {Name: "tiny", Attrs: []dg.ViewField{{Name: "v"}}}}}}
+		add("recursive-result-type", d)
+		d2 := svc1("w_recursive_result_collection", &dg.Method{Name: "coll", Result: pa(dg.A(dg.Type{Kind: "collection", Ref: "RNode"})), HTTP: &dg.HTTPMap{Routes: rt("GET", "/coll")}})
+		d2.Types = []*dg.UserType{{Name: "RNode", Result: true, Base: dg.Obj(dg.Req("v", dg.Prim("String")), dg.F("kids", dg.Type{Kind: "collection", Ref: "RNode"})),
+			Views: []dg.View{{Name: "default", Attrs: []dg.ViewField{{Name: "v"}, {Name: "kids", View: "tiny"}}}, {Name: "tiny", Attrs: []dg.ViewField{{Name: "v"}}}}}}
+		add("recursive-result-type", d2)
+	}
+	// method "new" + error "error" collide with the constructor of method "error"
+	add("method-name-new-prefix", svc1("w_method_new",
+		&dg.Method{Name: "new", Errors: []dg.ErrorDef{{Name: "error"}}, HTTP: &dg.HTTPMap{Routes: rt("POST", "/n"), Errors: []dg.ErrResponse{{Name: "error", R: dg.Response{Status: 400}}}}},
+		&dg.Method{Name: "error", Result: pa(dg.A(dg.Obj(dg.F("a", dg.Prim("String"))))), HTTP: &dg.HTTPMap{Routes: rt("POST", "/e")}}))
+	// multipart request: the example multipart.go imports the service package under an alias nothing uses
+	add("multipart-example-import", svc1("w_multipart", &dg.Method{Name: "upload", Payload: pa(dg.A(dg.Obj(dg.Req("name", dg.Prim("String")), dg.F("data", dg.Prim("Bytes"))))),
+		Result: pa(dg.A(dg.Prim("String"))), HTTP: &dg.HTTPMap{Routes: rt("POST", "/up"), Multipart: true}}))
+	// parameter names that are identifiers of the generated encoders / decoders
+	add("param-name-shadows-generated-identifier", svc1("w_param_err", &dg.Method{Name: "m", Payload: pa(dg.A(dg.Obj(dg.F("err", dg.Prim("Int"))))),
+		HTTP: &dg.HTTPMap{Routes: rt("GET", "/q"), Params: []dg.MapEntry{{Attr: "err"}}}}))
+	add("param-name-shadows-generated-identifier", svc1("w_param_r", &dg.Method{Name: "m", Payload: pa(dg.A(dg.Obj(dg.F("r", dg.Prim("String"))))),
+		HTTP: &dg.HTTPMap{Routes: rt("GET", "/h"), Headers: []dg.MapEntry{{Attr: "r", Wire: "X-R"}}}}))
+	add("param-name-shadows-generated-identifier", svc1("w_param_ctx", &dg.Method{Name: "m", Payload: pa(dg.A(dg.Obj(dg.Req("ctx", dg.Prim("String"))))),
+		HTTP: &dg.HTTPMap{Routes: rt("GET", "/p/{ctx}")}}))
+	add("param-name-shadows-generated-identifier", svc1("w_param_res_header", &dg.Method{Name: "m", Result: pa(dg.A(dg.Obj(dg.F("res", dg.Prim("String"))))),
+		HTTP: &dg.HTTPMap{Routes: rt("GET", "/rh"), Responses: []dg.Response{{Status: 200, Headers: []dg.MapEntry{{Attr: "res", Wire: "X-Res"}}}}}}))
+	// primitive payload in a parameter called v: NameScope.Name answers "v2" for the declaration, the code reads "v"
+	add("param-name-shadows-generated-identifier", svc1("w_param_prim_v", &dg.Method{Name: "m", Payload: pa(dg.A(dg.Prim("Int"))),
+		HTTP: &dg.HTTPMap{Routes: rt("GET", "/pv"), Params: []dg.MapEntry{{Attr: "v"}}}}))
+	// names whose first letter cannot be made upper case: the generated field / method is not exported
+	add("unexportable-name", svc1("w_caseless_attr", &dg.Method{Name: "m", Payload: pa(dg.A(dg.Obj(dg.F("\u65e5\u672c", dg.Prim("String"))))), HTTP: post()}))
+	add("unexportable-name", svc1("w_sharp_s_attr", &dg.Method{Name: "m", Result: pa(dg.A(dg.Obj(dg.F("\u00dfx", dg.Prim("String"))))), HTTP: post()}))
+	add("unexportable-name", svc1("w_caseless_method", &dg.Method{Name: "\u65e5\u672c", Payload: pa(dg.A(dg.Obj(dg.F("a", dg.Prim("String"))))), HTTP: post()}))
+	// fixed view listing a collection under a nested view whose element validator is not generated (reported by the C08 builder)
+	{
+		d := svc1("w_fixed_view_collection", &dg.Method{Name: "m", Result: pa(dg.A(dg.Ref("Outer"))), ResultView: "ext", HTTP: &dg.HTTPMap{Routes: rt("GET", "/m")}})
+		d.Types = []*dg.UserType{
+			{Name: "Inner", Result: true, Base: dg.Obj(dg.Req("i1", dg.Prim("String")), dg.F("i2", dg.Prim("Int"))),
+				Views: []dg.View{{Name: "default", Attrs: []dg.ViewField{{Name: "i1"}, {Name: "i2"}}}, {Name: "tiny", Attrs: []dg.ViewField{{Name: "i2"}}}}},
+			{Name: "Outer", Result: true, Base: dg.Obj(dg.Req("a", dg.Prim("String")), dg.F("list", dg.Type{Kind: "collection", Ref: "Inner"})),
+				Views: []dg.View{{Name: "default", Attrs: []dg.ViewField{{Name: "a"}, {Name: "list"}}}, {Name: "ext", Attrs: []dg.ViewField{{Name: "a"}, {Name: "list", View: "tiny"}}}}}}
+		add("fixed-view-collection-element-validator", d)
+	}
+	// two security schemes of one kind used by one service (reported by the C06 builder)
+	{
+		sec := func(fn, scheme, n string) *dg.Field {
+			return &dg.Field{Name: n, A: dg.Attr{T: dg.Prim("String"), Sec: &dg.SecAttrKind{Fn: fn, Scheme: scheme}}}
+		}
+		d := svc1("w_two_apikey_schemes", &dg.Method{Name: "m", Security: []dg.Requirement{{Schemes: []string{"ka", "kb"}}},
+			Payload: pa(dg.A(dg.Obj(sec("APIKey", "ka", "k1"), sec("APIKey", "kb", "k2")))),
+			HTTP:    &dg.HTTPMap{Routes: rt("GET", "/m"), Headers: []dg.MapEntry{{Attr: "k1", Wire: "X-K1"}, {Attr: "k2", Wire: "X-K2"}}}})
+		d.Schemes = []dg.Scheme{{Kind: "apikey", Name: "ka"}, {Kind: "apikey", Name: "kb"}}
+		add("two-schemes-same-kind", d)
+	}
 	return out
 }
